@@ -10,12 +10,14 @@
 From Cas Require Import History.
 From CasProofs Require Import StoreFS StoreInv StoreHist DiskInv RestartHist CrashInv CrashOps CrashOpen CrashC20 CrashCas CrashHist.
 
+(* from an empty directory, either choice of pre_create_cas_dirs (the first open creates the
+   65,536 fan-out directories before it writes the settings file when c_pre cfg = true) *)
 Theorem C03_crash_atomic :
   forall H : bytes -> bytes,
     (forall b, length (H b) = 32%nat) -> (forall b, Forall (fun x => x < 256) (H b)) ->
   forall cfg : config, 0 < c_n cfg ->
   forall h : list ev,
-    c_pre cfg = false -> c_n cfg < 2 ^ 64 ->
+    c_n cfg < 2 ^ 64 ->
     NoCollide H (flat_map ev_contents h) -> ext_fits cfg [] h ->
     N.of_nat (length h) < 2 ^ 32 - 1 ->
     exists (hd0 : handle) (w0 : world),
@@ -68,6 +70,23 @@ Theorem C03_nested_crashes_during_recovery :
                      /\ Inv' H cfg m' (wfs w') sg.
 Proof. exact CrashOpen.nested_crash_then_open. Qed.
 Print Assumptions C03_nested_crashes_during_recovery.
+
+(* the FIRST open of an empty directory killed after any number of its calls -- with
+   pre_create_cas_dirs = true also in the middle of the mkdir loop of the fan-out tree, which
+   leaves a partial tree under cas/ and no settings file -- and the recoveries from that killed
+   again, to any depth: the state left satisfies Rest for the empty map and the next open
+   succeeds (it completes the tree, then writes the settings file) *)
+Theorem C03_first_open_crash_safe :
+  forall H : bytes -> bytes,
+    (forall b, length (H b) = 32%nat) -> (forall b, Forall (fun x => x < 256) (H b)) ->
+  forall cfg : config, 0 < c_n cfg -> c_n cfg < 2 ^ 64 ->
+  forall ns : list nat,
+    let y := fold_left (fun y n => crash_open H cfg n y) ns empty_fs in
+    Rest H cfg y []
+    /\ exists m' os w', open_with_recover H cfg (init_world y None) = (Ok (m', os), w')
+                        /\ Inv' H cfg m' (wfs w') [].
+Proof. exact CrashOpen.first_open_crash. Qed.
+Print Assumptions C03_first_open_crash_safe.
 
 (* the write order behind it, for a put: every intermediate filesystem recovers to old or new *)
 Theorem C03_put_every_prefix :
